@@ -691,6 +691,13 @@ func (cr *coreRun) clientTask(ci int, cs ClientSpec) {
 			} else {
 				<-r.done
 			}
+			if r.excused && cs.Kind == "text" {
+				// finding F8 on a text connection: the reply built from the recycled command object was
+				// dropped by the connection's RequestId test, the server side waits for it for good and
+				// answers nothing any more: the client gives the connection up
+				w.probe("text_connection_given_up_after_f8")
+				return
+			}
 		}
 	}
 }
